@@ -135,7 +135,10 @@ type outcome struct {
 	reads     map[string]reflect.Value // api -> pointer to the struct read
 	readErr   map[string]error
 	readPanic map[string]string
-	readCount map[string]int // ReadMany-like apis: number of records returned
+	readCount map[string]int // number of records returned that carry the saved key
+	readTotal map[string]int // number of records returned
+	// expectTotal: records the swamp holds (what the whole-swamp apis must return)
+	expectTotal int
 }
 
 func (e *env) swamp(m *modelSpec, idx int, twin bool) name.Name {
@@ -192,14 +195,13 @@ func (e *env) save(api string, sw name.Name, inst reflect.Value) (error, string)
 	})
 }
 
-// read returns the pointer to the struct read, the number of records a multi-record api
-// produced (1 for single-record apis), the error and the panic text.
-func (e *env) read(api string, sw name.Name, t reflect.Type, key string) (got reflect.Value, n int, err error, pan string) {
+// read returns the pointers to every struct the api produced (one for single-record apis,
+// every record of the swamp for the multi-record apis), the error and the panic text.
+func (e *env) read(api string, sw name.Name, t reflect.Type, key string) (all []reflect.Value, err error, pan string) {
 	h := e.s.H
 	idx := &hydraidego.Index{IndexType: hydraidego.IndexKey, IndexOrder: hydraidego.IndexOrderAsc}
 	collect := func(model any) error {
-		n++
-		got = reflect.ValueOf(model)
+		all = append(all, reflect.ValueOf(model))
 		return nil
 	}
 	err, pan = safely(func() error {
@@ -209,7 +211,7 @@ func (e *env) read(api string, sw name.Name, t reflect.Type, key string) (got re
 			if err := h.CatalogRead(e.ctx, sw, key, p.Interface()); err != nil {
 				return err
 			}
-			got, n = p, 1
+			all = append(all, p)
 			return nil
 		case "CatalogReadMany":
 			return h.CatalogReadMany(e.ctx, sw, idx, reflect.Zero(t).Interface(), collect)
@@ -225,7 +227,7 @@ func (e *env) read(api string, sw name.Name, t reflect.Type, key string) (got re
 			if err := h.ProfileRead(e.ctx, sw, p.Interface()); err != nil {
 				return err
 			}
-			got, n = p, 1
+			all = append(all, p)
 			return nil
 		case "ProfileReadBatch":
 			var itemErr error
@@ -246,32 +248,78 @@ func (e *env) read(api string, sw name.Name, t reflect.Type, key string) (got re
 	return
 }
 
-// runVariant saves and reads one variant (original or twin) of the model.
-func (e *env) runVariant(m *modelSpec, idx int, twin bool, from1, from2 reflect.Value) (o outcome, saved reflect.Value, second reflect.Value) {
-	o = outcome{reads: map[string]reflect.Value{}, readErr: map[string]error{}, readPanic: map[string]string{}, readCount: map[string]int{}}
-	t := m.structType(twin)
-	sw := e.swamp(m, idx, twin)
-	saved = m.instance(t, nil, from1)
-	defer func() { _, _ = safely(func() error { return e.s.H.Destroy(e.ctx, sw) }) }()
-	o.saveErr, o.savePanic = e.save(m.Save, sw, saved)
-	if o.saveErr != nil || o.savePanic != "" {
-		return
-	}
-	if m.Second != nil {
-		second = m.instance(t, m.Second, from2)
-		o.saveErr, o.savePanic = e.save(m.Save, sw, second)
-		if o.saveErr != nil || o.savePanic != "" {
-			return
+// wholeSwampAPI: read apis that return every record of the swamp.
+var wholeSwampAPI = map[string]bool{"CatalogReadMany": true, "CatalogReadManyStream": true, "CatalogReadManyFromMany": true}
+
+// phaseRun is one instance of the model type taken through save + read. A case runs several
+// of them on the SAME reflect type in one process (state the SDK keeps per model type must
+// not matter): "primer" (every omitempty / deletable field empty, own key), "real" (the
+// generated values), "again" (other values, the omitempty fields filled), and afterwards a
+// re-read of each of them ("reread-*").
+type phaseRun struct {
+	phase         string
+	saved, second reflect.Value
+	sw            name.Name
+	o             outcome
+}
+
+func splitmix(x uint64) uint64 {
+	x += 0x9E3779B97F4A7C15
+	x = (x ^ (x >> 30)) * 0xBF58476D1CE4E5B9
+	x = (x ^ (x >> 27)) * 0x94D049BB133111EB
+	return x ^ (x >> 31)
+}
+
+func (f *fieldSpec) skippable() bool {
+	return f.Omit || (f.Role == "prof" && (strings.Contains(f.Tag, "omitempty") || strings.Contains(f.Tag, "deletable")))
+}
+
+// phasePicks derives the value picks of a phase from the case description.
+func (m *modelSpec) phasePicks(phase string) []uint64 {
+	picks := make([]uint64, len(m.Fields))
+	for i, f := range m.Fields {
+		picks[i] = f.Pick
+		switch phase {
+		case "primer":
+			if f.skippable() {
+				picks[i] = 0 // entry 0 of every value table is the empty value
+			}
+		case "again":
+			if f.Pick == pickNow {
+				continue
+			}
+			wantFull := f.skippable() || !isEmptyDoc(makeValue(f.Type, f.Pick))
+			p := splitmix(f.Pick) >> 1
+			for k := 0; k < 64 && wantFull && isEmptyDoc(makeValue(f.Type, p)); k++ {
+				p = splitmix(p) >> 1
+			}
+			picks[i] = p
 		}
 	}
-	key := ""
+	return picks
+}
+
+func (m *modelSpec) keyIndex() int {
 	for i, f := range m.Fields {
 		if f.Role == "key" {
-			key = saved.Elem().Field(i).String()
+			return i
 		}
 	}
-	for _, api := range m.Reads {
-		got, n, err, pan := e.read(api, sw, t, key)
+	return -1
+}
+
+// readPhase reads one saved instance back through the given apis.
+func (e *env) readPhase(m *modelSpec, t reflect.Type, pr *phaseRun, apis []string, expectTotal int) {
+	o := &pr.o
+	o.reads, o.readErr, o.readPanic, o.readCount = map[string]reflect.Value{}, map[string]error{}, map[string]string{}, map[string]int{}
+	o.readTotal, o.expectTotal = map[string]int{}, expectTotal
+	ki := m.keyIndex()
+	key := ""
+	if ki >= 0 {
+		key = pr.saved.Elem().Field(ki).String()
+	}
+	for _, api := range apis {
+		all, err, pan := e.read(api, pr.sw, t, key)
 		e.c.Count("reads", 1)
 		e.c.Seen("read_apis", api)
 		switch {
@@ -280,11 +328,65 @@ func (e *env) runVariant(m *modelSpec, idx int, twin bool, from1, from2 reflect.
 		case err != nil:
 			o.readErr[api] = err
 		default:
-			o.readCount[api] = n
-			if n >= 1 {
-				o.reads[api] = got
+			o.readTotal[api] = len(all)
+			for _, g := range all {
+				if ki < 0 || g.Elem().Field(ki).String() == key {
+					o.readCount[api]++
+					o.reads[api] = g
+				}
 			}
 		}
+	}
+}
+
+// runVariant takes one variant (original or twin) of the model type through the phases.
+// from (twin variant) supplies the exact instances of the original variant's phases.
+func (e *env) runVariant(m *modelSpec, idx int, twin bool, from []phaseRun) (runs []phaseRun) {
+	t := m.structType(twin)
+	base := e.swamp(m, idx, twin)
+	var swamps []name.Name
+	defer func() {
+		for _, sw := range swamps {
+			_, _ = safely(func() error { return e.s.H.Destroy(e.ctx, sw) })
+		}
+	}()
+	stored := 0 // records accepted so far in the shared catalog swamp
+	for pi, phase := range []string{"primer", "real", "again"} {
+		pr := phaseRun{phase: phase, sw: base}
+		if m.Shape == "profile" { // a profile is one swamp per entity
+			pr.sw = name.Load(base.Get() + phase)
+		}
+		if pi == 0 || m.Shape == "profile" {
+			swamps = append(swamps, pr.sw)
+		}
+		var f1, f2 reflect.Value
+		if from != nil {
+			f1, f2 = from[pi].saved, from[pi].second
+		}
+		pr.saved = m.instance(t, m.phasePicks(phase), f1)
+		if ki := m.keyIndex(); ki >= 0 && from == nil && phase != "real" {
+			pr.saved.Elem().Field(ki).SetString(pr.saved.Elem().Field(ki).String() + "#" + phase)
+		}
+		pr.o.saveErr, pr.o.savePanic = e.save(m.Save, pr.sw, pr.saved)
+		if pr.o.saveErr == nil && pr.o.savePanic == "" && m.Second != nil && phase == "real" {
+			pr.second = m.instance(t, m.Second, f2)
+			pr.o.saveErr, pr.o.savePanic = e.save(m.Save, pr.sw, pr.second)
+		}
+		e.c.Count("phases", 1)
+		if pr.o.saveErr == nil && pr.o.savePanic == "" {
+			stored++
+			e.readPhase(m, t, &pr, m.Reads, stored)
+		}
+		runs = append(runs, pr)
+	}
+	// the earlier instances must still read back correctly after the later operations
+	for _, pr := range runs[:3] {
+		if pr.o.saveErr != nil || pr.o.savePanic != "" {
+			continue
+		}
+		rr := phaseRun{phase: "reread-" + pr.phase, saved: pr.saved, second: pr.second, sw: pr.sw}
+		e.readPhase(m, t, &rr, m.Reads[:1], stored)
+		runs = append(runs, rr)
 	}
 	return
 }
@@ -355,10 +457,23 @@ func errKind(err error) string {
 type violation struct{ sig, what string }
 
 // check compares one variant's outcome with the documented round-trip image of what was saved.
-func (e *env) check(m *modelSpec, twin bool, o outcome, saved, second reflect.Value) (vs []violation, accepted bool, inconclusive string) {
+func (e *env) check(m *modelSpec, twin bool, pr *phaseRun) (vs []violation, accepted bool, inconclusive string) {
+	o, saved, second := pr.o, pr.saved, pr.second
 	variant := "orig"
 	if twin {
 		variant = "twin"
+	}
+	variant += ", phase " + pr.phase
+	defer func() {
+		// the phase is part of every signature: a defect that needs earlier operations on the
+		// same model type shows up from "real" on, a stateless one already in "primer"
+		for i := range vs {
+			vs[i].sig += ":phase=" + pr.phase
+		}
+	}()
+	apis := m.Reads
+	if strings.HasPrefix(pr.phase, "reread-") {
+		apis = m.Reads[:1]
 	}
 	ho := hostileOthers(m, -1, twin)
 	if o.savePanic != "" {
@@ -379,7 +494,7 @@ func (e *env) check(m *modelSpec, twin bool, o outcome, saved, second reflect.Va
 			key = saved.Elem().Field(i).String()
 		}
 	}
-	for _, api := range m.Reads {
+	for _, api := range apis {
 		if p, ok := o.readPanic[api]; ok {
 			vs = append(vs, violation{fmt.Sprintf("read-panic:%s:hostile=%s:%s", m.Shape, ho, shortPanic(p)),
 				fmt.Sprintf("%s of a model that %s accepted panicked inside the SDK: %s", api, m.Save, p)})
@@ -397,9 +512,17 @@ func (e *env) check(m *modelSpec, twin bool, o outcome, saved, second reflect.Va
 				fmt.Sprintf("%s of a model that %s accepted failed: %v", api, m.Save, err)})
 			continue
 		}
+		if wholeSwampAPI[api] && o.readTotal[api] != o.expectTotal {
+			rel := "fewer"
+			if o.readTotal[api] > o.expectTotal {
+				rel = "more"
+			}
+			vs = append(vs, violation{fmt.Sprintf("read-count:%s:%s:%s-records-than-saved", m.Shape, api, rel),
+				fmt.Sprintf("%s returned %d records for a swamp holding %d saved records", api, o.readTotal[api], o.expectTotal)})
+		}
 		if n := o.readCount[api]; n != 1 {
-			vs = append(vs, violation{fmt.Sprintf("read-count:%s:%s:got=%d", m.Shape, api, min(n, 2)),
-				fmt.Sprintf("%s returned %d records for a swamp holding exactly the one saved record", api, n)})
+			vs = append(vs, violation{fmt.Sprintf("read-count:%s:%s:key-seen=%d", m.Shape, api, min(n, 2)),
+				fmt.Sprintf("%s returned %d records with the saved key", api, n)})
 			if n == 0 {
 				continue
 			}
@@ -528,20 +651,47 @@ func metamorphic(m *modelSpec, a, b outcome) (vs []violation) {
 // runCase executes one model (and its twin) and reports into the accumulator.
 func (e *env) runCase(m modelSpec, idx int) {
 	c := e.c
-	o, saved, second := e.runVariant(&m, idx, false, reflect.Value{}, reflect.Value{})
-	vs, accepted, inc := e.check(&m, false, o, saved, second)
+	runs := e.runVariant(&m, idx, false, nil)
+	var vs []violation
+	inc := ""
+	checkAll := func(rs []phaseRun, twin bool) (realAccepted bool) {
+		for i := range rs {
+			v, acc, in := e.check(&m, twin, &rs[i])
+			vs = append(vs, v...)
+			if inc == "" {
+				inc = in
+			}
+			if rs[i].phase == "real" {
+				realAccepted = acc
+			}
+		}
+		return
+	}
+	accepted := checkAll(runs, false)
+	o, saved := runs[1].o, runs[1].saved
 	twinAccepted := false
 	if m.Twin >= 0 && m.TwinTag != "" {
-		ot, savedT, secondT := e.runVariant(&m, idx, true, saved, second)
-		vt, acc, inc2 := e.check(&m, true, ot, savedT, secondT)
-		twinAccepted = acc
-		vs = append(vs, vt...)
-		if inc == "" {
-			inc = inc2
-		}
-		if accepted && acc {
-			vs = append(vs, metamorphic(&m, o, ot)...)
+		truns := e.runVariant(&m, idx, true, runs)
+		twinAccepted = checkAll(truns, true)
+		if accepted && twinAccepted {
+			vs = append(vs, metamorphic(&m, runs[1].o, truns[1].o)...)
 			c.Count("metamorphic_pairs", 1)
+		}
+	}
+	// measured coverage of the order-sensitive situation: an omitempty body field that is empty
+	// in the primer and declared before a body field that is written
+	if m.Shape == "mapbody" {
+		emptyOmit := false
+		for _, f := range m.Fields {
+			if f.Role != "body" {
+				continue
+			}
+			if f.Omit {
+				emptyOmit = true
+			} else if emptyOmit {
+				c.Count("mapbody_empty_omitempty_before_written_field", 1)
+				break
+			}
 		}
 	}
 	nonzero := false
@@ -590,12 +740,12 @@ func trimErr(err error) string {
 func TestCheck(t *testing.T) {
 	c := rig.NewCheck(t, "C22", "exploration")
 	defer c.Finish()
-	c.Rule = "one case = one generated model type (reflect.StructOf) with one value per field, saved through one SDK save API and read back through 1-2 read APIs (map-body models with >=2 body fields are also run as a twin with one body tag renamed); non-trivial = the SDK accepted the model (save returned no error) and at least one non-key field held a non-empty value; distinct = distinct model JSON"
+	c.Rule = "one case = one generated model type (reflect.StructOf) with one value per field, taken through a sequence on that one type in one process: a primer instance (all omitempty fields empty, own key) saved+read, the real instance saved+read, a third instance (other values, omitempty fields filled) saved+read, then all three re-read; one SDK save API and 1-2 read APIs per case (map-body models with >=2 body fields are also run as a twin with one body tag renamed); non-trivial = the SDK accepted the model (save returned no error) and at least one non-key field held a non-empty value; distinct = distinct model JSON"
 	c.Assumptions = []string{
 		"documented as lossy and therefore normalised: time zone and monotonic clock part (instants are compared); a top-level time.Time value / profile field is stored as whole UNIX seconds; nil and empty slices/maps are not distinguished; an empty field tagged omitempty (or deletable in profiles) reads back as the zero value; an absent (omitempty, empty) metadata slot may read back as anything",
 		"a model the SDK rejects with an error is out of scope (counted as rejected_by_sdk, never a violation)",
 		"only documented model shapes: one `key`, at most one `value` XOR unique non-reserved body tags, at most one of each metadata tag, profile tags omitempty/deletable only; metadata instants are kept inside the int64-nanosecond range",
-		"one save per fresh key/swamp (profiles: optionally a second ProfileSave over the first; an empty omitempty field, and an empty pointer / time / slice / map field whose clearing the documentation does not specify, may keep the first save's value)",
+		"every instance is saved under a fresh key (profiles: a fresh swamp; optionally a second ProfileSave over the first; an empty omitempty field, and an empty pointer / time / slice / map field whose clearing the documentation does not specify, may keep the first save's value)",
 		"a wall-clock watchdog (60 s per SDK call) only ever yields inconclusive",
 	}
 	c.MinNontrivial = 20
